@@ -16,7 +16,7 @@ Reading guide (`Model/PoolSpec.lean`):
 * `discByHolder s` = connections handed back with `release(discard=True)` whose
                      `_discard_conn` has not finished: the property's "counts as closed".
 -/
-import EdbVerif.Lemmas.PoolOwn5
+import EdbVerif.Lemmas.PoolPrune
 
 namespace EdbVerif.C15
 open EdbVerif.Pool
@@ -93,6 +93,29 @@ theorem block_counters (max : Nat) (evs : List (Env × Ev)) (hev : ∀ x ∈ evs
     ∀ b ∈ (run (init max) evs).blocks,
       b.acquired = (((run (init max) evs).holders.filter (·.name == b.name)).length : Int) :=
   ⟨(own_run max evs hev).disj, (own_run max evs hev).acq⟩
+
+/-! ### What the pruning entry points break (decide-checked witnesses)
+
+`InvNum` holds through both (`inv_step`).  The waiter invariant holds through
+`prune_all_connections` (Props/C16).  Ownership does not: -/
+
+/-- `prune_all_connections` (HA failover) drops LENT connections from `conns` on purpose:
+    after `acquire; pall` the conjunct `InvOwn.held` ("a lent connection is in its block,
+    marked in use") is false — and `conn_acquired_num` stays 1 with nothing lent from the block. -/
+theorem own_breaks_after_prune_all : ¬ InvOwn (run (init 1) pallRun) := own_breaks_after_pall
+
+/-- `prune_inactive_connections`: while the task is suspended it holds the connections it took
+    off the stack (`NoLeak` accounts for them); when it is aborted (connect retries exhausted
+    while it waits in `try_acquire`) they are orphaned: `NoLeak` — "every connection that is not
+    lent is idle, scheduled for discard, or in a prune task's hands" — fails, with `err = none`
+    (every event enabled) and no prune task left.  None of the conjuncts of `InvOwn` fails there
+    (`checkOwn = []`): the orphan is in its block, not in use, not idle, not lent — forever.
+    (Finding `orphaned-by-dead-prune-task`; replayed on the real pool: corpus/C16/leak-7-*.) -/
+theorem no_leak_breaks_after_aborted_prune :
+    (¬ NoLeak (run (init 2) leakRun) ∧ (run (init 2) leakRun).err = none ∧
+      (run (init 2) leakRun).prunes = [] ∧ checkOwn (run (init 2) leakRun) = []) ∧
+    NoLeak (run (init 2) leakRun.dropLast) :=
+  ⟨leak_after_aborted_prune, no_leak_before_abort⟩
 
 /-! ### Non-vacuity: a concrete run that exercises transfer, discard and failure -/
 
